@@ -480,8 +480,8 @@ pub fn run(report: &Report) {
         report.require(n);
     }
     models_part(report);
-    coders_part(report, if q { 5 } else { 7 });
-    faults_part(report, if q { 6 } else { 8 });
+    coders_part(report, if q { 6 } else { 7 });
+    faults_part(report, if q { 7 } else { 8 });
 }
 
 pub fn replay(_case: &serde_json::Value) -> Result<String, String> {
